@@ -65,6 +65,12 @@ def hybrid_layout(l0: int, l1: int, l2: int) -> bool:
     # C12.c: three boot files of DIFFERENT symbolic sizes (BIOS, EFI, Mac sections) + isohybrid(mac=True): after extent assignment the
     # MBR/GPT fields delimit exactly the El Torito images they describe
     c = CFG
+    # M_rand for this obligation: every uuid4() call returns a DIFFERENT value (a per-run counter), as the real one does with
+    # overwhelming probability -- otherwise independently drawn GUIDs would look equal
+    import itertools
+    import uuid
+    cnt = itertools.count(100)
+    uuid.uuid4 = lambda: uuid.UUID(int=next(cnt))
     iso = skel.new_iso(c)
     fp = skel.BootFP()
     iso.add_fp(fp, l0, **skel.fkw(c, 'ISOLINUX'))
@@ -86,6 +92,54 @@ def hybrid_layout(l0: int, l1: int, l2: int) -> bool:
         ok = ok & (g.parts[1].first_lba == 4 * e_efi.inode.extent_location()) & (g.parts[1].last_lba == 4 * e_efi.inode.extent_location() + e_efi.sector_count - 1)
         ok = ok & (g.parts[2].first_lba == 4 * e_mac.inode.extent_location()) & (g.parts[2].last_lba == 4 * e_mac.inode.extent_location() + e_mac.sector_count - 1)
     ok = ok & (e_efi.load_rba == e_efi.inode.extent_location()) & (e_mac.load_rba == e_mac.inode.extent_location())
+    if h.P.get('apm'):
+        # C12.c/apm: ONLY the Apple partition map entries of the EFI and Mac images (kept apart: recorded finding).  Entry k (k = 1, 2)
+        # must delimit the corresponding El Torito image, in 2048-byte map blocks or in 512-byte sectors
+        ap = hy.primary_gpt.apm_parts
+        if len(ap) != 3:
+            return False
+        okk = True
+        for part, e in ((ap[1], e_efi), (ap[2], e_mac)):
+            ext = e.inode.extent_location()
+            okk = okk & (((part.start_block == ext) & (part.block_count * 4 >= e.sector_count) & (part.block_count * 4 < e.sector_count + 4)) |
+                         ((part.start_block == 4 * ext) & (part.block_count == e.sector_count)))
+        return h.post(okk)
+    # primary and backup GPT mirror each other: same disk GUID, the same partition entries byte for byte (real GPTPartHeader.record),
+    # and the headers name each other's sector
+    pg, sg = hy.primary_gpt, hy.secondary_gpt
+    if pg.header.disk_guid != sg.header.disk_guid or len(pg.parts) != len(sg.parts) or len(pg.parts) != 3:
+        return False
+    for pa, pb in zip(pg.parts, sg.parts):
+        ra, rb = pa.record(), pb.record()
+        if len(ra) != 128 or len(rb) != 128:
+            return False
+        for i in range(128):
+            ok = ok & (ra[i] == rb[i])
+    ok = ok & (pg.header.current_lba == 1) & (pg.header.backup_lba == sg.header.current_lba) & (sg.header.backup_lba == 1)
+    ok = ok & (pg.header.first_usable_lba == sg.header.first_usable_lba) & (pg.header.last_usable_lba == sg.header.last_usable_lba)
+    ok = ok & (sg.header.partition_entries_lba + 32 == sg.header.current_lba)
+    if not h.SYM:
+        # concrete runs only (declared samples and replays): the primary and the backup table as RECORDED, validated the way the UEFI
+        # specification says (header CRC-32 over the 92 header bytes with its own field zero; entry-array CRC-32 over
+        # NumberOfPartitionEntries * SizeOfPartitionEntry bytes) with zlib's CRC-32, not the library's
+        import struct as _st
+        import zlib
+        for g in (pg, sg):
+            raw = g.record()
+            if g.is_primary:
+                hdr, arr = raw[:512], raw[len(raw) - 128 * 128:]
+            else:
+                hdr, arr = raw[len(raw) - 512:], raw[:128 * 128]
+            if hdr[:8] != b'EFI PART':
+                return False
+            hsize, hcrc = _st.unpack_from('<LL', hdr, 12)
+            nparts, psize, acrc = _st.unpack_from('<LLL', hdr, 80)
+            if hsize != 92 or nparts * psize != len(arr):
+                return False
+            if zlib.crc32(hdr[:16] + b'\x00\x00\x00\x00' + hdr[20:92]) & 0xffffffff != hcrc:
+                return False
+            if zlib.crc32(arr) & 0xffffffff != acrc:
+                return False
     # the RECORDED protective MBR (bytes 0..511 of the image): entries 2 and 3 decoded from the bytes the real record() emits
     # (the GPT blob that follows is cut off: its CRC-32 is outside this obligation)
     import pycdlib.isohybrid as _ih
